@@ -5,6 +5,7 @@ import GapicModel.Lemmas.WsRegex
 import GapicModel.Lemmas.Textwrap
 import GapicModel.Lemmas.WrapWhole
 import GapicModel.Lemmas.WrapWidth
+import GapicModel.Lemmas.RstWords
 import GapicModel.Pinned.Funcs
 /-
 C20 — whitespace clean-up never changes code meaning (fix_whitespace part).
@@ -255,6 +256,22 @@ open GapicModel.Model.Wrap GapicModel.Lemmas.WrapWidth in
 example : wrap T "do-not-break me".toList 5 none 0 = some "do-not-break\nme".toList ∧
     OneChunk "do-not-break".toList := by
   refine ⟨by decide, [], "do-not-break".toList, rfl, by simp, by decide⟩
+
+open GapicModel.Model.Wrap in
+/-- **Comments reach docstrings intact** (plain-text path of `rst()`, the one every comment without a
+formatting character takes): for a text without double quotes and backslashes — the characters the quote
+guard of `rst()` rewrites on purpose — the words of what is placed in the docstring are exactly the words of
+the comment, for every width, indent and `nl`. (`Metadata.doc` only strips or joins the comment's blocks:
+`Lemmas.WrapWords.strip_words`.) -/
+theorem plain_comment_words_reach_docstring (text : List Char) (width : Int) (indent : Nat) (nl : Option Bool)
+    (out : List Char) (hq : '"' ∉ text) (hb : '\\' ∉ text) (h : rstFast T text width indent nl = some out) :
+    words T out = words T text :=
+  Lemmas.RstWords.rstFast_words text width indent nl out hq hb h
+
+open GapicModel.Model.Wrap in
+/-- non-vacuity: a comment that is re-wrapped on the fast path -/
+example : rstFast T "The quick brown fox jumps over the lazy dog near the bank".toList 30 4 none
+    = some "The quick brown fox\n    jumps over the lazy\n    dog near the bank\n    ".toList := by decide
 
 /-- the colon rule of `wrap` (`re.sub(r":\n([^\n])", r":\n\n\1", text)`), run by the regex engine on the
 pattern the translator extracts from the source, IS the plain function `colonSub` the proof reasons about -/
